@@ -86,9 +86,23 @@ def explore(run, tier):
                     c = c01.mk('pkg', codec, n % 2, {'MTI': '1144', f'DE{b}': v}, {})
                     c['overlong'] = f'DE{b} with {n} characters'
                     cases.append(c)
+    # fixed-width text SHORTER than its field: must come out left-justified and padded with the encoded space
+    for b in bits:
+        fc = pkg[str(b)]
+        if fc['field_type'] not in ('LLVAR', 'LLLVAR') and not fc.get('field_python_type') and fc['field_length'] > 1:
+            for codec in iu.CODECS:
+                for n in {1, fc['field_length'] // 2, fc['field_length'] - 1}:
+                    m = {'MTI': '1240', f'DE{b}': iu.text(rng, codec, n).rstrip(' ') or 'x'}
+                    cases.append(c01.mk('pkg', codec, b % 2, m, {}))
     for _ in range(2000 if tier == 'quick' else 50000):
         codec = rng.choice(iu.CODECS)
         m, e = iu.gen_message(rng, pkg, codec)
+        if rng.random() < 0.3:      # some fixed text values shorter than the field
+            for k in list(m):
+                fc = pkg.get(k[2:]) if k.startswith('DE') else None
+                if fc and fc['field_type'] not in ('LLVAR', 'LLLVAR') and isinstance(m[k], str) and len(m[k]) > 1 \
+                        and not fc.get('field_python_type') and rng.random() < 0.5:
+                    m[k] = m[k][:rng.randrange(1, len(m[k]))]
         cases.append(c01.mk('pkg', codec, rng.randrange(2), m, e))
     for _ in range(10 if tier == 'quick' else 60):
         cfg = iu.gen_config(rng)
